@@ -222,21 +222,23 @@ structure CacheInv (w : World) : Prop where
 theorem cacheInv_init (nst : Nat) (dirs : List DirEnt) : CacheInv (World.init nst dirs) := by
   refine ⟨dbInv_empty, ?_, ?_, ?_, ?_, ?_⟩ <;> simp [World.init, ProductExists, Spec.empty]
 
-/-- **An accepted cache agrees with the database** on its whole slice. -/
+/-- **An accepted cache file agrees with the database** on its whole slice: it is up to date, and it names
+only products the database has. -/
 theorem accepts_agree {w : World} (h : CacheInv w) {cf : CacheFile} (hc : cf ∈ w.caches) (hs : cf.stack < w.nst)
     (ha : accepts w cf = true) : AgreeOn cf.c w.db cf.stack cf.flav := by
   simp only [accepts, Bool.and_eq_true] at ha
   obtain ⟨hup, hnames⟩ := ha
   rw [upToDate_iff] at hup
-  rw [sameSet_iff] at hnames
+  have hnames : ∀ x, x ∈ specNames cf.c → x ∈ dbNames w.db cf.stack := by
+    simpa only [List.all_eq_true, List.contains_iff_mem] using hnames
   obtain ⟨hconf, hnd⟩ := h.wf cf hc hs
   intro n
   by_cases hex : ProductExists w.db cf.stack n
   · exact h.fresh cf hc hs n hex (fun t ht h1 _ => hup t ht h1)
-  · -- the product is in neither: the names agree, and tags need a declaration
+  · -- the product is in neither: the cache names only products of the database, and tags need a declaration
     have hnc : ¬ ∃ d ∈ cf.c.decls, d.name = n := by
       intro hh
-      exact hex ((mem_dbNames _ _ _).mp ((hnames n).mp ((mem_specNames _ _).mpr hh)))
+      exact hex ((mem_dbNames _ _ _).mp (hnames n ((mem_specNames _ _).mpr hh)))
     refine ⟨fun d h1 _ h3 => ?_, fun r h1 _ h3 => ?_⟩
     · constructor
       · intro hd; exact absurd ⟨d, hd, h3⟩ hnc
@@ -325,61 +327,169 @@ theorem snapshot_stack (db : Spec) (s : Nat) :
   · intro r hr; simp only [snapshot, List.mem_filter, Bool.and_eq_true, beq_iff_eq] at hr; exact hr.2.1
 
 theorem saveAll_inv (u : User) (s : Nat) (m : Spec) (fs : List Flav) {w : World} (h : CacheInv w)
-    (hm : ∀ f, s < w.nst → AgreeOn m w.db s f) : CacheInv (saveAll u s m fs w) := by
+    (hm : ∀ f ∈ fs, s < w.nst → AgreeOn m w.db s f) : CacheInv (saveAll u s m fs w) := by
   induction fs generalizing w with
   | nil => exact h
   | cons f fs ih =>
     simp only [saveAll]
-    exact ih (save_inv h u s f m (hm f)) hm
+    exact ih (save_inv h u s f m (hm f (by simp))) (fun f' hf' => hm f' (by simp [hf']))
 
-/-- loading one stack keeps the invariant; the view agrees with the database on the native slice of the stack
-and holds entries of that stack only -/
+theorem findCaches_some {w : World} {u : User} {s : Nat} {fs : List Flav} {cfs : List CacheFile}
+    (h : findCaches w u s fs = some cfs) :
+    cfs.map (·.flav) = fs ∧ ∀ cf ∈ cfs, cf ∈ w.caches ∧ cf.stack = s := by
+  induction fs generalizing cfs with
+  | nil => simp only [findCaches, Option.some.injEq] at h; subst h; exact ⟨rfl, by intro cf hcf; cases hcf⟩
+  | cons f fs ih =>
+    simp only [findCaches] at h
+    cases hf : w.findCache u s f with
+    | none => rw [hf] at h; cases h
+    | some c =>
+      cases hfs : findCaches w u s fs with
+      | none => rw [hf, hfs] at h; cases h
+      | some cs =>
+        rw [hf, hfs] at h
+        simp only [Option.some.injEq] at h
+        subst h
+        obtain ⟨h1, h2⟩ := ih hfs
+        have hp := List.find?_some hf
+        simp only [Bool.and_eq_true, beq_iff_eq] at hp
+        refine ⟨by simp [h1, hp.2], ?_⟩
+        intro cf hcf
+        rcases List.mem_cons.mp hcf with rfl | hcf
+        · exact ⟨List.mem_of_find?_eq_some hf, hp.1.2⟩
+        · exact h2 cf hcf
+
+theorem mem_unionAll_decls (l : List Spec) (d : Decl) : d ∈ (unionAll l).decls ↔ ∃ c ∈ l, d ∈ c.decls := by
+  induction l with
+  | nil => simp [unionAll, Spec.empty]
+  | cons c cs ih => simp [unionAll, specUnion, ih]
+
+theorem mem_unionAll_tags (l : List Spec) (r : TagRec) : r ∈ (unionAll l).tags ↔ ∃ c ∈ l, r ∈ c.tags := by
+  induction l with
+  | nil => simp [unionAll, Spec.empty]
+  | cons c cs ih => simp [unionAll, specUnion, ih]
+
+/-- the union of accepted cache files of one stack agrees with the database on each of their flavors -/
+theorem unionAll_agree {w : World} (h : CacheInv w) {s : Nat} (hs : s < w.nst) {cfs : List CacheFile}
+    (hmem : ∀ cf ∈ cfs, cf ∈ w.caches ∧ cf.stack = s) (hacc : ∀ cf ∈ cfs, accepts w cf = true)
+    (f : Flav) (hf : f ∈ cfs.map (·.flav)) : AgreeOn (unionAll (cfs.map (·.c))) w.db s f := by
+  obtain ⟨cf0, hcf0, hfl0⟩ := List.mem_map.mp hf
+  have hag0 := accepts_agree h (hmem cf0 hcf0).1 ((hmem cf0 hcf0).2 ▸ hs) (hacc cf0 hcf0)
+  rw [(hmem cf0 hcf0).2, hfl0] at hag0
+  intro n
+  refine ⟨fun d h1 h2 h3 => ?_, fun r h1 h2 h3 => ?_⟩
+  · rw [mem_unionAll_decls]
+    constructor
+    · rintro ⟨c, hc, hd⟩
+      obtain ⟨cf, hcf, rfl⟩ := List.mem_map.mp hc
+      have hag := accepts_agree h (hmem cf hcf).1 ((hmem cf hcf).2 ▸ hs) (hacc cf hcf)
+      obtain ⟨hconf, _⟩ := h.wf cf (hmem cf hcf).1 ((hmem cf hcf).2 ▸ hs)
+      exact ((hag n).1 d (hconf.1 d hd).1 (hconf.1 d hd).2 h3).mp hd
+    · intro hd
+      exact ⟨cf0.c, List.mem_map.mpr ⟨cf0, hcf0, rfl⟩, ((hag0 n).1 d h1 h2 h3).mpr hd⟩
+  · rw [mem_unionAll_tags]
+    constructor
+    · rintro ⟨c, hc, hr⟩
+      obtain ⟨cf, hcf, rfl⟩ := List.mem_map.mp hc
+      have hag := accepts_agree h (hmem cf hcf).1 ((hmem cf hcf).2 ▸ hs) (hacc cf hcf)
+      obtain ⟨hconf, _⟩ := h.wf cf (hmem cf hcf).1 ((hmem cf hcf).2 ▸ hs)
+      exact ((hag n).2 r (hconf.2 r hr).1 (hconf.2 r hr).2 h3).mp hr
+    · intro hr
+      exact ⟨cf0.c, List.mem_map.mpr ⟨cf0, hcf0, rfl⟩, ((hag0 n).2 r h1 h2 h3).mpr hr⟩
+
+/-- loading one stack keeps the invariant; the view agrees with the database on every flavor the stack then
+holds — the needed flavors (native and fallback) among them — and holds entries of that stack only, all of them
+in the database -/
 theorem loadStack_inv {w : World} (h : CacheInv w) (u : User) (self : Flav) {s : Nat} (hs : s < w.nst) :
-    CacheInv (loadStack w u self s).w ∧ AgreeOn (loadStack w u self s).view w.db s self ∧
-    (∀ d ∈ (loadStack w u self s).view.decls, d.stack = s) ∧ (∀ r ∈ (loadStack w u self s).view.tags, r.stack = s) := by
-  have hreb : CacheInv (saveAll u s (snapshot w.db s)
-      (specFlavors (snapshot w.db s) ++ (if (specFlavors (snapshot w.db s)).contains self then [] else [self])) w) :=
-    saveAll_inv u s _ _ h (fun f _ => snapshot_agree h.dbinv.nd s f)
+    CacheInv (loadStack w u self s).w ∧
+    (∀ f ∈ (loadStack w u self s).flavs, AgreeOn (loadStack w u self s).view w.db s f) ∧
+    (∀ f ∈ needed self, f ∈ (loadStack w u self s).flavs) ∧
+    (∀ d ∈ (loadStack w u self s).view.decls, d.stack = s ∧ d ∈ w.db.decls) ∧
+    (∀ r ∈ (loadStack w u self s).view.tags, r.stack = s) := by
+  have hsnapsub : ∀ d ∈ (snapshot w.db s).decls, d.stack = s ∧ d ∈ w.db.decls := by
+    intro d hd
+    simp only [snapshot, List.mem_filter, beq_iff_eq] at hd
+    exact ⟨hd.2, hd.1⟩
+  have hreb : ∀ fs : List Flav, (∀ f ∈ needed self, f ∈ fs) →
+      CacheInv (saveAll u s (snapshot w.db s) fs w) ∧
+      (∀ f ∈ fs, AgreeOn (snapshot w.db s) w.db s f) ∧ (∀ f ∈ needed self, f ∈ fs) ∧
+      (∀ d ∈ (snapshot w.db s).decls, d.stack = s ∧ d ∈ w.db.decls) ∧
+      (∀ r ∈ (snapshot w.db s).tags, r.stack = s) := fun fs hfs =>
+    ⟨saveAll_inv u s _ fs h (fun f _ _ => snapshot_agree h.dbinv.nd s f),
+     fun f _ => snapshot_agree h.dbinv.nd s f, hfs, hsnapsub, (snapshot_stack w.db s).2⟩
+  have hneed : ∀ f ∈ needed self, f ∈ specFlavors (snapshot w.db s) ++
+      (needed self).filter (fun f => !(specFlavors (snapshot w.db s)).contains f) := by
+    intro f hf
+    by_cases hc : f ∈ specFlavors (snapshot w.db s)
+    · exact List.mem_append_left _ hc
+    · exact List.mem_append_right _ (List.mem_filter.mpr ⟨hf, by simpa using hc⟩)
   unfold loadStack
   dsimp only
   split
-  · exact ⟨hreb, snapshot_agree h.dbinv.nd s self, snapshot_stack w.db s⟩
-  · rename_i cf hfind
-    have hmem : cf ∈ w.caches := List.mem_of_find?_eq_some hfind
-    have hp := List.find?_some hfind
-    simp only [Bool.and_eq_true, beq_iff_eq] at hp
-    obtain ⟨⟨_, hst⟩, hfl⟩ := hp
+  · exact hreb _ hneed
+  · rename_i cfs hfind
+    obtain ⟨hmap, hmem⟩ := findCaches_some hfind
     split
     · rename_i hacc
-      have hag := accepts_agree h hmem (hst ▸ hs) hacc
-      rw [hst, hfl] at hag
-      obtain ⟨hconf, _⟩ := h.wf cf hmem (hst ▸ hs)
-      exact ⟨h, hag, fun d hd => (hconf.1 d hd).1.trans hst, fun r hr => (hconf.2 r hr).1.trans hst⟩
-    · exact ⟨hreb, snapshot_agree h.dbinv.nd s self, snapshot_stack w.db s⟩
+      simp only [Bool.and_eq_true, List.all_eq_true] at hacc
+      refine ⟨h, ?_, fun f hf => hf, ?_, ?_⟩
+      · intro f hf
+        exact unionAll_agree h hs hmem hacc.1 f (hmap ▸ hf)
+      · intro d hd
+        obtain ⟨c, hc, hdc⟩ := (mem_unionAll_decls _ d).mp hd
+        obtain ⟨cf, hcf, rfl⟩ := List.mem_map.mp hc
+        obtain ⟨hconf, _⟩ := h.wf cf (hmem cf hcf).1 ((hmem cf hcf).2 ▸ hs)
+        have hag := accepts_agree h (hmem cf hcf).1 ((hmem cf hcf).2 ▸ hs) (hacc.1 cf hcf)
+        exact ⟨(hconf.1 d hdc).1.trans (hmem cf hcf).2,
+          ((hag d.name).1 d (hconf.1 d hdc).1 (hconf.1 d hdc).2 rfl).mp hdc⟩
+      · intro r hr
+        obtain ⟨c, hc, hrc⟩ := (mem_unionAll_tags _ r).mp hr
+        obtain ⟨cf, hcf, rfl⟩ := List.mem_map.mp hc
+        obtain ⟨hconf, _⟩ := h.wf cf (hmem cf hcf).1 ((hmem cf hcf).2 ▸ hs)
+        exact (hconf.2 r hrc).1.trans (hmem cf hcf).2
+    · exact hreb _ hneed
 
-/-- the in-memory stacks agree with the database on the native slice of every stack of the path -/
-def ViewInv (nst : Nat) (self : Flav) (m db : Spec) : Prop := ∀ s, s < nst → AgreeOn m db s self
+/-- the in-memory stacks agree with the database on every flavor each stack of the path holds -/
+def ViewInv (nst : Nat) (held : Nat → List Flav) (m db : Spec) : Prop :=
+  ∀ s, s < nst → ∀ f ∈ held s, AgreeOn m db s f
 
-theorem loadFrom_inv (u : User) (self : Flav) (ss : List Nat) (done : List Nat) (m : Spec) (fl : List (List Flav))
-    {w : World} (h : CacheInv w) (hss : ∀ s ∈ ss, s < w.nst)
-    (hm1 : ∀ d ∈ m.decls, d.stack ∈ done) (hm2 : ∀ r ∈ m.tags, r.stack ∈ done)
-    (hm3 : ∀ s ∈ done, AgreeOn m w.db s self) :
+theorem loadFrom_inv (u : User) (self : Flav) (ss : List Nat) (done : List Nat) (m : Spec)
+    (fl : List (Nat × List Flav)) {w : World} (h : CacheInv w) (hss : ∀ s ∈ ss, s < w.nst)
+    (hnd : ss.Nodup) (hdisj : ∀ s ∈ ss, s ∉ done)
+    (hm1 : ∀ d ∈ m.decls, d.stack ∈ done ∧ d ∈ w.db.decls) (hm2 : ∀ r ∈ m.tags, r.stack ∈ done)
+    (hfl : ∀ x ∈ fl, x.1 ∈ done ∧ (∀ f ∈ needed self, f ∈ x.2) ∧ ∀ f ∈ x.2, AgreeOn m w.db x.1 f)
+    (hdone : ∀ s ∈ done, ∃ x ∈ fl, x.1 = s) :
     CacheInv (loadFrom u self ss m fl w).2.2 ∧
-    ∀ s ∈ done ++ ss, AgreeOn (loadFrom u self ss m fl w).1 w.db s self := by
+    (∀ x ∈ (loadFrom u self ss m fl w).2.1, (∀ f ∈ needed self, f ∈ x.2) ∧
+        ∀ f ∈ x.2, AgreeOn (loadFrom u self ss m fl w).1 w.db x.1 f) ∧
+    (∀ s ∈ done ++ ss, ∃ x ∈ (loadFrom u self ss m fl w).2.1, x.1 = s) ∧
+    (∀ d ∈ (loadFrom u self ss m fl w).1.decls, d ∈ w.db.decls) := by
   induction ss generalizing done m fl w with
-  | nil => exact ⟨h, by simpa [loadFrom] using hm3⟩
+  | nil =>
+    simp only [loadFrom, List.append_nil]
+    exact ⟨h, fun x hx => ⟨(hfl x hx).2.1, (hfl x hx).2.2⟩, hdone, fun d hd => (hm1 d hd).2⟩
   | cons s ss ih =>
     simp only [loadFrom]
-    obtain ⟨hinv, hag, hd, ht⟩ := loadStack_inv h u self (hss s (by simp))
+    have hs := hss s (by simp)
+    obtain ⟨hinv, hag, hneed, hd, ht⟩ := loadStack_inv h u self hs
     obtain ⟨kdb, _, knst, _⟩ := loadStack_db w u self s
-    have := ih (s :: done) (specUnion m (loadStack w u self s).view) (fl ++ [(loadStack w u self s).flavs]) hinv
+    have hsnd : s ∉ done := hdisj s (by simp)
+    obtain ⟨hsns, hnd'⟩ := List.nodup_cons.mp hnd
+    have := ih (s :: done) (specUnion m (loadStack w u self s).view) (fl ++ [(s, (loadStack w u self s).flavs)]) hinv
       (by intro x hx; rw [knst]; exact hss x (by simp [hx]))
+      hnd'
+      (by
+        intro x hx hxd
+        rcases List.mem_cons.mp hxd with rfl | hxd
+        · exact hsns hx
+        · exact hdisj x (by simp [hx]) hxd)
       (by
         intro d hd'
+        rw [kdb]
         simp only [specUnion, List.mem_append] at hd'
         rcases hd' with hd' | hd'
-        · exact List.mem_cons_of_mem _ (hm1 d hd')
-        · rw [hd d hd']; exact List.mem_cons_self)
+        · exact ⟨List.mem_cons_of_mem _ (hm1 d hd').1, (hm1 d hd').2⟩
+        · rw [(hd d hd').1]; exact ⟨List.mem_cons_self, (hd d hd').2⟩)
       (by
         intro r hr'
         simp only [specUnion, List.mem_append] at hr'
@@ -388,58 +498,90 @@ theorem loadFrom_inv (u : User) (self : Flav) (ss : List Nat) (done : List Nat) 
         · rw [ht r hr']; exact List.mem_cons_self)
       (by
         rw [kdb]
-        intro s' hs' n
-        refine ⟨fun d h1 h2 h3 => ?_, fun r h1 h2 h3 => ?_⟩
-        · simp only [specUnion, List.mem_append]
-          by_cases hsd : s' ∈ done
-          · by_cases hss' : s' = s
-            · subst hss'
-              rw [(hm3 s' hsd n).1 d h1 h2 h3, (hag n).1 d h1 h2 h3]; simp
-            · have : d ∉ (loadStack w u self s).view.decls := fun hh => hss' (h1 ▸ hd d hh)
-              simp [this, (hm3 s' hsd n).1 d h1 h2 h3]
-          · have hs'' : s' = s := by
-              rcases List.mem_cons.mp hs' with h' | h'
-              · exact h'
-              · exact absurd h' hsd
-            subst hs''
-            have : d ∉ m.decls := fun hh => hsd (h1 ▸ hm1 d hh)
-            simp [this, (hag n).1 d h1 h2 h3]
-        · simp only [specUnion, List.mem_append]
-          by_cases hsd : s' ∈ done
-          · by_cases hss' : s' = s
-            · subst hss'
-              rw [(hm3 s' hsd n).2 r h1 h2 h3, (hag n).2 r h1 h2 h3]; simp
-            · have : r ∉ (loadStack w u self s).view.tags := fun hh => hss' (h1 ▸ ht r hh)
-              simp [this, (hm3 s' hsd n).2 r h1 h2 h3]
-          · have hs'' : s' = s := by
-              rcases List.mem_cons.mp hs' with h' | h'
-              · exact h'
-              · exact absurd h' hsd
-            subst hs''
-            have : r ∉ m.tags := fun hh => hsd (h1 ▸ hm2 r hh)
-            simp [this, (hag n).2 r h1 h2 h3])
-    refine ⟨this.1, ?_⟩
+        intro x hx
+        simp only [List.mem_append, List.mem_singleton] at hx
+        rcases hx with hx | rfl
+        · -- an earlier stack: the new view holds nothing of it
+          obtain ⟨h1, h2, h3⟩ := hfl x hx
+          have hne : x.1 ≠ s := fun e => hsnd (e ▸ h1)
+          refine ⟨List.mem_cons_of_mem _ h1, h2, ?_⟩
+          intro f hf n
+          refine ⟨fun d a1 a2 a3 => ?_, fun r a1 a2 a3 => ?_⟩
+          · simp only [specUnion, List.mem_append]
+            have : d ∉ (loadStack w u self s).view.decls := fun hh => hne (a1 ▸ (hd d hh).1)
+            simp [this, ((h3 f hf) n).1 d a1 a2 a3]
+          · simp only [specUnion, List.mem_append]
+            have : r ∉ (loadStack w u self s).view.tags := fun hh => hne (a1 ▸ ht r hh)
+            simp [this, ((h3 f hf) n).2 r a1 a2 a3]
+        · -- the stack just loaded: the old view holds nothing of it
+          refine ⟨List.mem_cons_self, hneed, ?_⟩
+          intro f hf n
+          refine ⟨fun d a1 a2 a3 => ?_, fun r a1 a2 a3 => ?_⟩
+          · simp only [specUnion, List.mem_append]
+            have a1' : d.stack = s := a1
+            have : d ∉ m.decls := fun hh => hsnd (a1' ▸ (hm1 d hh).1)
+            simp [this, ((hag f hf) n).1 d a1 a2 a3]
+          · simp only [specUnion, List.mem_append]
+            have a1' : r.stack = s := a1
+            have : r ∉ m.tags := fun hh => hsnd (a1' ▸ hm2 r hh)
+            simp [this, ((hag f hf) n).2 r a1 a2 a3])
+      (by
+        intro s' hs'
+        rcases List.mem_cons.mp hs' with rfl | hs'
+        · exact ⟨(s', (loadStack w u self s').flavs), by simp, rfl⟩
+        · obtain ⟨x, hx, hxs⟩ := hdone s' hs'
+          exact ⟨x, by simp [hx], hxs⟩)
+    rw [kdb] at this
+    refine ⟨this.1, this.2.1, ?_, this.2.2.2⟩
     intro s' hs'
-    have h2 := this.2 s' (by
-      simp only [List.mem_append, List.mem_cons] at hs' ⊢
-      rcases hs' with h' | h' | h'
-      · exact Or.inl (Or.inr h')
-      · exact Or.inl (Or.inl h')
-      · exact Or.inr h')
-    rw [kdb] at h2
-    exact h2
+    apply this.2.2.1 s'
+    simp only [List.mem_append, List.mem_cons] at hs' ⊢
+    rcases hs' with h' | h' | h'
+    · exact Or.inl (Or.inr h')
+    · exact Or.inl (Or.inl h')
+    · exact Or.inr h'
 
-/-- **Command start.**  Loading keeps the invariant, and the in-memory stacks agree with the database on the
-native flavor of every stack of the path. -/
+theorem mem_heldOf {fl : List (Nat × List Flav)} {s : Nat} {f : Flav} (h : f ∈ heldOf fl s) :
+    ∃ x ∈ fl, x.1 = s ∧ f ∈ x.2 := by
+  unfold heldOf at h
+  cases hf : fl.find? (fun x => x.1 == s) with
+  | none => rw [hf] at h; cases h
+  | some x =>
+    rw [hf] at h
+    exact ⟨x, List.mem_of_find?_eq_some hf, by simpa using List.find?_some hf, h⟩
+
+theorem heldOf_of_all {fl : List (Nat × List Flav)} {s : Nat} {f : Flav} (hex : ∃ x ∈ fl, x.1 = s)
+    (hall : ∀ x ∈ fl, f ∈ x.2) : f ∈ heldOf fl s := by
+  unfold heldOf
+  cases hf : fl.find? (fun x => x.1 == s) with
+  | none =>
+    obtain ⟨x, hx, hxs⟩ := hex
+    rw [List.find?_eq_none] at hf
+    exact absurd (by simpa using hxs) (hf x hx)
+  | some x => exact hall x (List.mem_of_find?_eq_some hf)
+
+/-- **Command start.**  Loading keeps the invariant; the in-memory stacks agree with the database on every
+flavor each stack of the path holds, the native flavor and its fallback among them; and they show no declaration
+that the files do not hold. -/
 theorem load_inv {w : World} (h : CacheInv w) (u : User) (self : Flav) :
-    CacheInv (load w u self).2.2 ∧ ViewInv w.nst self (load w u self).1 w.db := by
+    CacheInv (load w u self).2.2 ∧ ViewInv w.nst (heldOf (load w u self).2.1) (load w u self).1 w.db ∧
+    (∀ s, s < w.nst → ∀ f ∈ fallbacks self, f ∈ heldOf (load w u self).2.1 s) ∧
+    (∀ d ∈ (load w u self).1.decls, d ∈ w.db.decls) := by
   have := loadFrom_inv u self (allStacks w.nst) [] Spec.empty [] h
-    (by intro s hs; simpa [allStacks] using hs)
+    (by intro s hs; simpa [allStacks] using hs) (by unfold allStacks; exact List.nodup_range)
+    (by intro s _ hs; cases hs)
     (by intro d hd; simp [Spec.empty] at hd) (by intro r hr; simp [Spec.empty] at hr)
-    (by intro s hs; simp at hs)
-  refine ⟨this.1, ?_⟩
-  intro s hs
-  exact this.2 s (by simpa [allStacks] using hs)
+    (by intro x hx; cases hx) (by intro s hs; cases hs)
+  refine ⟨this.1, ?_, ?_, this.2.2.2⟩
+  · intro s _ f hf
+    obtain ⟨x, hx, hxs, hfx⟩ := mem_heldOf hf
+    have := (this.2.1 x hx).2 f hfx
+    rw [hxs] at this
+    exact this
+  · intro s hs f hf
+    apply heldOf_of_all (this.2.2.1 s (by simpa [allStacks] using hs))
+    intro x hx
+    exact (this.2.1 x hx).1 f (by unfold needed; exact (mem_dedup _ _).mpr hf)
 
 /-! ## effects -/
 
@@ -525,17 +667,17 @@ theorem applyDbW_inv {w : World} (h : CacheInv w) (e : Eff) : CacheInv (applyDbW
     · exact h
 
 /-- after the database part and the write-through of an effect the in-memory stacks still agree with the
-database on the native slices -/
-theorem applyW_view {w : World} (h : CacheInv w) {nst : Nat} {self : Flav} {m : Spec} (hv : ViewInv nst self m w.db)
-    (e : Eff) : ViewInv nst self (applyMem e m) (applyDbW w e).db := by
-  intro s hs n
-  have hc := commute_all e m w.db h.dbinv.nd s self n (hv s hs n)
+database on every flavor the stacks hold -/
+theorem applyW_view {w : World} (h : CacheInv w) {nst : Nat} {held : Nat → List Flav} {m : Spec}
+    (hv : ViewInv nst held m w.db) (e : Eff) : ViewInv nst held (applyMem e m) (applyDbW w e).db := by
+  intro s hs f hf n
+  have hc := commute_all e m w.db h.dbinv.nd s f n (hv s hs f hf n)
   unfold applyDbW
   split
   · rename_i hk
     cases e with
-    | rmTree d => exact hv s hs n
-    | copyExtra d => exact hv s hs n
+    | rmTree d => exact hv s hs f hf n
+    | copyExtra d => exact hv s hs f hf n
     | declare _ _ => simp [effKey] at hk
     | undeclare _ _ _ _ => simp [effKey] at hk
     | assign _ _ _ _ _ => simp [effKey] at hk
@@ -544,83 +686,67 @@ theorem applyW_view {w : World} (h : CacheInv w) {nst : Nat} {self : Flav} {m : 
     split
     · exact hc
     · rename_i hw
-      exact hc.trans (applyDb_of_not_writes e w.db h.dbinv.nd (by simpa using hw) s self n)
+      exact hc.trans (applyDb_of_not_writes e w.db h.dbinv.nd (by simpa using hw) s f n)
 
-theorem saves_slice {e : Eff} {m : Spec} {s : Nat} {f : Flav} (h : e.saves m = some (s, f)) :
-    ∃ n, e.slice = some (s, f, n) := by
-  cases e with
-  | declare d tag => simp only [Eff.saves, Option.some.injEq, Prod.mk.injEq] at h; exact ⟨d.name, by simp [Eff.slice, h.1, h.2]⟩
-  | undeclare s' n' v f' => simp only [Eff.saves, Option.some.injEq, Prod.mk.injEq] at h; exact ⟨n', by simp [Eff.slice, h.1, h.2]⟩
-  | assign s' t n' f' v => simp only [Eff.saves, Option.some.injEq, Prod.mk.injEq] at h; exact ⟨n', by simp [Eff.slice, h.1, h.2]⟩
-  | unassign s' t n' f' =>
-    simp only [Eff.saves] at h
-    split at h
-    · simp only [Option.some.injEq, Prod.mk.injEq] at h; exact ⟨n', by simp [Eff.slice, h.1, h.2]⟩
-    · cases h
-  | rmTree _ => simp [Eff.saves] at h
-  | copyExtra _ => simp [Eff.saves] at h
-
-theorem applySaveW_inv {w : World} (h : CacheInv w) (u : User) (m m' : Spec) (e : Eff)
-    (hm : ∀ s f, e.saves m = some (s, f) → s < w.nst → AgreeOn m' w.db s f) :
-    CacheInv (applySaveW u w m m' e) := by
+theorem applySaveW_inv {w : World} (h : CacheInv w) (u : User) (held : Nat → List Flav) (m m' : Spec) (e : Eff)
+    (hm : ∀ s, s < w.nst → ∀ f ∈ held s, AgreeOn m' w.db s f) :
+    CacheInv (applySaveW u held w m m' e) := by
   unfold applySaveW
   split
   · exact ⟨h.dbinv, h.cache_time, h.touch_time, h.touch_alive, h.fresh, h.wf⟩
   · exact ⟨h.dbinv, h.cache_time, h.touch_time, h.touch_alive, h.fresh, h.wf⟩
   · split
     · exact h
-    · rename_i s f hsv
-      exact save_inv h u s f m' (hm s f hsv)
+    · rename_i s _ _
+      exact saveAll_inv u s m' (held s) h (fun f hf hs => hm s hs f hf)
 
 theorem applyDbW_nst (w : World) (e : Eff) : (applyDbW w e).nst = w.nst := (applyDbW_dirs w e).2
 
-theorem applySaveW_nst (u : User) (w : World) (m m' : Spec) (e : Eff) : (applySaveW u w m m' e).nst = w.nst := by
+theorem applySaveW_nst (u : User) (held : Nat → List Flav) (w : World) (m m' : Spec) (e : Eff) :
+    (applySaveW u held w m m' e).nst = w.nst := by
   unfold applySaveW
   split
   · rfl
   · rfl
-  · split <;> rfl
+  · split
+    · rfl
+    · rename_i s _ _; exact (saveAll_db u s m' (held s) w).2.2.1
 
-/-- **A whole effect of a process whose in-memory stacks agree with the database keeps the invariant and
-the agreement** — provided the effect works in the native flavor of the process, which every effect of a
-command does (`run_trOK`). -/
-theorem applyW_inv {w : World} (h : CacheInv w) (u : User) {self : Flav} {m : Spec}
-    (hv : ViewInv w.nst self m w.db) (e : Eff) (hf : ∀ k, e.slice = some k → k.2.1 = self) :
-    CacheInv (applyW true u (w, m) e).1 ∧
-    ViewInv w.nst self (applyW true u (w, m) e).2 (applyW true u (w, m) e).1.db ∧
-    (applyW true u (w, m) e).1.nst = w.nst := by
+/-- **A whole effect of a process whose in-memory stacks agree with the database keeps the invariant and the
+agreement**: the database part makes every older cache of the product stale, the write-through commutes, and the
+cache files saved — one per flavor the stack holds — are slices of a view that agrees with the files. -/
+theorem applyW_inv {w : World} (h : CacheInv w) (u : User) {held : Nat → List Flav} {m : Spec}
+    (hv : ViewInv w.nst held m w.db) (e : Eff) :
+    CacheInv (applyW true u held (w, m) e).1 ∧
+    ViewInv w.nst held (applyW true u held (w, m) e).2 (applyW true u held (w, m) e).1.db ∧
+    (applyW true u held (w, m) e).1.nst = w.nst := by
   unfold applyW
   dsimp only
   have h1 := applyDbW_inv h e
-  have hv1 : ViewInv w.nst self (applyMem e m) (applyDbW w e).db := applyW_view h hv e
-  refine ⟨applySaveW_inv h1 u m _ e ?_, ?_, ?_⟩
-  · intro s f hsv hs
-    obtain ⟨n, hsl⟩ := saves_slice hsv
-    have : f = self := hf _ hsl
-    subst this
-    exact hv1 s (applyDbW_nst w e ▸ hs)
-  · rw [(applySaveW_db _ _ _ _ _).1]; exact hv1
+  have hv1 : ViewInv w.nst held (applyMem e m) (applyDbW w e).db := applyW_view h hv e
+  refine ⟨applySaveW_inv h1 u held m _ e ?_, ?_, ?_⟩
+  · intro s hs f hf
+    exact hv1 s (applyDbW_nst w e ▸ hs) f hf
+  · rw [(applySaveW_db _ _ _ _ _ _).1]; exact hv1
   · rw [applySaveW_nst, applyDbW_nst]
 
-theorem foldl_applyW_inv (u : User) {self : Flav} (es : List Eff) {w : World} {m : Spec} (h : CacheInv w)
-    (hv : ViewInv w.nst self m w.db) (hf : ∀ e ∈ es, ∀ k, e.slice = some k → k.2.1 = self) :
-    CacheInv (es.foldl (applyW true u) (w, m)).1 := by
+theorem foldl_applyW_inv (u : User) {held : Nat → List Flav} (es : List Eff) {w : World} {m : Spec} (h : CacheInv w)
+    (hv : ViewInv w.nst held m w.db) : CacheInv (es.foldl (applyW true u held) (w, m)).1 := by
   induction es generalizing w m with
   | nil => exact h
   | cons e es ih =>
-    obtain ⟨h1, hv1, hn⟩ := applyW_inv h u hv e (hf e (by simp))
+    obtain ⟨h1, hv1, hn⟩ := applyW_inv h u hv e
     simp only [List.foldl_cons]
-    have : applyW true u (w, m) e = ((applyW true u (w, m) e).1, (applyW true u (w, m) e).2) := rfl
+    have : applyW true u held (w, m) e = ((applyW true u held (w, m) e).1, (applyW true u held (w, m) e).2) := rfl
     rw [this]
-    exact ih h1 (hn ▸ hv1) (fun e' he' => hf e' (by simp [he']))
+    exact ih h1 (hn ▸ hv1)
 
 /-- a (possibly cut) replay keeps the invariant: a crash leaves the database part of the last effect, after
 which no cache of the product's stack is accepted for it -/
-theorem replay_inv (u : User) {self : Flav} (es : List Eff) (last : Option Eff) {w : World} {m : Spec}
-    (h : CacheInv w) (hv : ViewInv w.nst self m w.db) (hf : ∀ e ∈ es, ∀ k, e.slice = some k → k.2.1 = self) :
-    CacheInv (replay true u (w, m) es last) := by
+theorem replay_inv (u : User) {held : Nat → List Flav} (es : List Eff) (last : Option Eff) {w : World} {m : Spec}
+    (h : CacheInv w) (hv : ViewInv w.nst held m w.db) : CacheInv (replay true u held (w, m) es last) := by
   unfold replay
-  have := foldl_applyW_inv u es h hv hf
+  have := foldl_applyW_inv u es h hv
   cases last with
   | none => exact this
   | some e => exact applyDbW_inv this e
@@ -655,23 +781,15 @@ theorem step_inv {w : World} (h : CacheInv w) (c : WCmd) : CacheInv (step w c) :
       fun cf hcf => h.fresh cf (hsub cf hcf), fun cf hcf => h.wf cf (hsub cf hcf)⟩
   | run u c crash =>
     simp only [step, stepG]
-    obtain ⟨h1, hv⟩ := load_inv h u c.self
+    obtain ⟨h1, hv, _, _⟩ := load_inv h u c.self
     obtain ⟨hdb, _, hnst⟩ := load_db w u c.self
     generalize load w u c.self = l at h1 hv hdb hnst
     obtain ⟨m, fl, w1⟩ := l
     dsimp only at h1 hv hdb hnst ⊢
-    have htr : ∀ e ∈ (run w.nst c ⟨w1.db, m, w1.dirs, [], w1.extras⟩).2.tr, ∀ k, e.slice = some k → k.2.1 = c.self := by
-      intro e he
-      exact Within.slice_flav (run_trOK w.nst c ⟨w1.db, m, w1.dirs, [], w1.extras⟩ (by intro e h; simp at h) e he)
-    have hv1 : ViewInv w1.nst c.self m w1.db := by rw [hnst, hdb]; exact hv
+    have hv1 : ViewInv w1.nst (heldOf fl) m w1.db := by rw [hnst, hdb]; exact hv
     cases crash with
-    | none => exact replay_inv u _ none h1 hv1 htr
-    | some k =>
-      dsimp only
-      refine replay_inv u _ _ h1 hv1 ?_
-      intro e he
-      have hsub := (cutAfterDb_sublist (run w.nst c ⟨w1.db, m, w1.dirs, [], w1.extras⟩).2.tr k).subset
-      exact htr e (hsub (by simp [he]))
+    | none => exact replay_inv u _ none h1 hv1
+    | some k => exact replay_inv u _ _ h1 hv1
 
 theorem history_inv (nst : Nat) (dirs : List DirEnt) (h : List WCmd) : CacheInv (runHistory (World.init nst dirs) h) := by
   unfold runHistory
@@ -680,8 +798,8 @@ theorem history_inv (nst : Nat) (dirs : List DirEnt) (h : List WCmd) : CacheInv 
   | nil => intro w hw; exact hw
   | cons c cs ih => intro w hw; exact ih _ (step_inv hw c)
 
-theorem foldl_applyW_nst (fixed : Bool) (u : User) (es : List Eff) (wm : World × Spec) :
-    (es.foldl (applyW fixed u) wm).1.nst = wm.1.nst := by
+theorem foldl_applyW_nst (fixed : Bool) (u : User) (held : Nat → List Flav) (es : List Eff) (wm : World × Spec) :
+    (es.foldl (applyW fixed u held) wm).1.nst = wm.1.nst := by
   induction es generalizing wm with
   | nil => rfl
   | cons e es ih =>
@@ -786,113 +904,54 @@ theorem applyDbW_db_eq (w : World) (e : Eff) (hdb : NoDangling w.db) : (applyDbW
     · rfl
     · rename_i hw; exact (applyDb_eq_of_not_writes _ _ hdb (by simpa using hw) rfl).symm
 
-theorem foldl_applyW_db_eq (fixed : Bool) (u : User) (es : List Eff) (wm : World × Spec) (hdb : DbInv wm.1.db) :
-    (es.foldl (applyW fixed u) wm).1.db = es.foldl (fun c e => applyDb e c) wm.1.db := by
+theorem foldl_applyW_db_eq (fixed : Bool) (u : User) (held : Nat → List Flav) (es : List Eff) (wm : World × Spec)
+    (hdb : DbInv wm.1.db) :
+    (es.foldl (applyW fixed u held) wm).1.db = es.foldl (fun c e => applyDb e c) wm.1.db := by
   induction es generalizing wm with
   | nil => rfl
   | cons e es ih =>
     simp only [List.foldl_cons]
-    have h1 : (applyW fixed u wm e).1.db = applyDb e wm.1.db := by
+    have h1 : (applyW fixed u held wm e).1.db = applyDb e wm.1.db := by
       simp only [applyW]
-      rw [(applySaveW_db _ _ _ _ _).1]
+      rw [(applySaveW_db _ _ _ _ _ _).1]
       exact applyDbW_db_eq _ _ hdb.nd
     rw [ih _ (h1 ▸ hdb.apply e), h1]
 
 /-- **The structure of a command that is not killed**: it runs `Db.run` from a view that agrees with the files
-on the native flavor of every stack of the path and shows nothing that the files do not hold; its outcome is
-that run's outcome and the files afterwards are that run's database. -/
-theorem step_run {w : World} (h : CacheInv w) (u : User) (c : Cmd) :
-    ∃ m : Spec, ViewInv w.nst c.self m w.db ∧
-      (stepG true w (.run u c none)).out = (run w.nst c ⟨w.db, m, w.dirs, [], w.extras⟩).1 ∧
-      (stepG true w (.run u c none)).w.db = (run w.nst c ⟨w.db, m, w.dirs, [], w.extras⟩).2.db := by
-  simp only [stepG]
-  obtain ⟨_, hv⟩ := load_inv h u c.self
-  obtain ⟨hdb, hdirs, _⟩ := load_db w u c.self
-  have hex := load_extras w u c.self
-  generalize load w u c.self = l at hv hdb hdirs hex
-  obtain ⟨m, fl, w1⟩ := l
-  dsimp only at hv hdb hdirs hex ⊢
-  refine ⟨m, hv, by rw [hdb, hdirs, hex], ?_⟩
-  unfold replay
-  dsimp only
-  rw [foldl_applyW_db_eq true u _ (w1, m) (by dsimp only; rw [hdb]; exact h.dbinv)]
-  dsimp only
-  rw [hdb, hdirs, hex]
-  have hb := run_base w.nst c ⟨w.db, m, w.dirs, [], w.extras⟩
-  simp only [Proc.db]
-  rw [hb.1]
-
-/-! ## the view shows nothing that the files do not hold -/
-
-theorem loadStack_sub {w : World} (h : CacheInv w) (u : User) (self : Flav) {s : Nat} (hs : s < w.nst) :
-    ∀ d ∈ (loadStack w u self s).view.decls, d ∈ w.db.decls := by
-  have hsnap : ∀ d ∈ (snapshot w.db s).decls, d ∈ w.db.decls := by
-    intro d hd; simp only [snapshot, List.mem_filter] at hd; exact hd.1
-  unfold loadStack
-  dsimp only
-  split
-  · exact hsnap
-  · rename_i cf hfind
-    have hmem : cf ∈ w.caches := List.mem_of_find?_eq_some hfind
-    have hp := List.find?_some hfind
-    simp only [Bool.and_eq_true, beq_iff_eq] at hp
-    obtain ⟨⟨_, hst⟩, _⟩ := hp
-    split
-    · rename_i hacc
-      intro d hd
-      have hag := accepts_agree h hmem (hst ▸ hs) hacc
-      obtain ⟨hconf, _⟩ := h.wf cf hmem (hst ▸ hs)
-      exact ((hag d.name).1 d (hconf.1 d hd).1 (hconf.1 d hd).2 rfl).mp hd
-    · exact hsnap
-
-theorem loadFrom_sub (u : User) (self : Flav) (ss : List Nat) (m : Spec) (fl : List (List Flav)) {w : World}
-    (h : CacheInv w) (hss : ∀ s ∈ ss, s < w.nst) (hm : ∀ d ∈ m.decls, d ∈ w.db.decls) :
-    ∀ d ∈ (loadFrom u self ss m fl w).1.decls, d ∈ w.db.decls := by
-  induction ss generalizing m fl w with
-  | nil => simpa [loadFrom] using hm
-  | cons s ss ih =>
-    simp only [loadFrom]
-    obtain ⟨hinv, _, _, _⟩ := loadStack_inv h u self (hss s (by simp))
-    obtain ⟨kdb, _, knst, _⟩ := loadStack_db w u self s
-    have := ih (specUnion m (loadStack w u self s).view) (fl ++ [(loadStack w u self s).flavs]) hinv
-      (by intro x hx; rw [knst]; exact hss x (by simp [hx]))
-      (by
-        intro d hd
-        rw [kdb]
-        simp only [specUnion, List.mem_append] at hd
-        rcases hd with hd | hd
-        · exact hm d hd
-        · exact loadStack_sub h u self (hss s (by simp)) d hd)
-    rw [kdb] at this
-    exact this
-
-theorem load_sub {w : World} (h : CacheInv w) (u : User) (self : Flav) :
-    ∀ d ∈ (load w u self).1.decls, d ∈ w.db.decls :=
-  loadFrom_sub u self (allStacks w.nst) Spec.empty [] h (by intro s hs; simpa [allStacks] using hs)
-    (by intro d hd; simp [Spec.empty] at hd)
-
-/-- `step_run` with the extra fact that the view shows only declarations the files hold -/
+on every flavor the stacks of the path hold — the native flavor and its fallback among them — and shows no
+declaration that the files do not hold; its outcome is that run's outcome and the files afterwards are that run's
+database. -/
 theorem step_run_sub {w : World} (h : CacheInv w) (u : User) (c : Cmd) :
-    ∃ m : Spec, ViewInv w.nst c.self m w.db ∧ (∀ d ∈ m.decls, d ∈ w.db.decls) ∧
+    ∃ (m : Spec) (held : Nat → List Flav), ViewInv w.nst held m w.db ∧
+      (∀ s, s < w.nst → ∀ f ∈ fallbacks c.self, f ∈ held s) ∧ (∀ d ∈ m.decls, d ∈ w.db.decls) ∧
       (stepG true w (.run u c none)).out = (run w.nst c ⟨w.db, m, w.dirs, [], w.extras⟩).1 ∧
       (stepG true w (.run u c none)).w.db = (run w.nst c ⟨w.db, m, w.dirs, [], w.extras⟩).2.db := by
   simp only [stepG]
-  obtain ⟨_, hv⟩ := load_inv h u c.self
-  have hsub := load_sub h u c.self
+  obtain ⟨_, hv, hfb, hsub⟩ := load_inv h u c.self
   obtain ⟨hdb, hdirs, _⟩ := load_db w u c.self
   have hex := load_extras w u c.self
-  generalize load w u c.self = l at hv hdb hdirs hsub hex
+  generalize load w u c.self = l at hv hfb hsub hdb hdirs hex
   obtain ⟨m, fl, w1⟩ := l
-  dsimp only at hv hdb hdirs hsub hex ⊢
-  refine ⟨m, hv, hsub, by rw [hdb, hdirs, hex], ?_⟩
+  dsimp only at hv hfb hsub hdb hdirs hex ⊢
+  refine ⟨m, heldOf fl, hv, hfb, hsub, by rw [hdb, hdirs, hex], ?_⟩
   unfold replay
   dsimp only
-  rw [foldl_applyW_db_eq true u _ (w1, m) (by dsimp only; rw [hdb]; exact h.dbinv)]
+  rw [foldl_applyW_db_eq true u _ _ (w1, m) (by dsimp only; rw [hdb]; exact h.dbinv)]
   dsimp only
   rw [hdb, hdirs, hex]
   have hb := run_base w.nst c ⟨w.db, m, w.dirs, [], w.extras⟩
   simp only [Proc.db]
   rw [hb.1]
+
+/-- the in-memory stacks of the process agree with the files on the native flavor of every stack of the path -/
+def NativeInv (nst : Nat) (self : Flav) (m db : Spec) : Prop := ∀ s, s < nst → AgreeOn m db s self
+
+theorem step_run {w : World} (h : CacheInv w) (u : User) (c : Cmd) :
+    ∃ m : Spec, NativeInv w.nst c.self m w.db ∧
+      (stepG true w (.run u c none)).out = (run w.nst c ⟨w.db, m, w.dirs, [], w.extras⟩).1 ∧
+      (stepG true w (.run u c none)).w.db = (run w.nst c ⟨w.db, m, w.dirs, [], w.extras⟩).2.db := by
+  obtain ⟨m, held, hv, hfb, _, h1, h2⟩ := step_run_sub h u c
+  exact ⟨m, fun s hs => hv s hs c.self (hfb s hs c.self (by simp [fallbacks])), h1, h2⟩
 
 /-- a command whose `Db.run` leaves the trace empty leaves database, record times and directories alone
 (whether it is killed or not) -/
@@ -933,10 +992,10 @@ theorem stepG_db_trace (w : World) (h : DbInv w.db) (c : WCmd) :
     obtain ⟨m, fl, w1⟩ := l
     dsimp only at hdb ⊢
     have hrep : ∀ (es : List Eff) (last : Option Eff),
-        (replay true u (w1, m) es last).db = (es ++ last.toList).foldl (fun c e => applyDb e c) w.db := by
+        (replay true u (heldOf fl) (w1, m) es last).db = (es ++ last.toList).foldl (fun c e => applyDb e c) w.db := by
       intro es last
       unfold replay
-      have h1 := foldl_applyW_db_eq true u es (w1, m) (by dsimp only; rw [hdb]; exact h)
+      have h1 := foldl_applyW_db_eq true u (heldOf fl) es (w1, m) (by dsimp only; rw [hdb]; exact h)
       dsimp only at h1
       cases last with
       | none => simp only [Option.toList_none, List.append_nil]; rw [h1, hdb]
